@@ -12,7 +12,8 @@ def steps_cfg(steps, max_seq, invs=True):
         '  Procs = {"p1"}', '  Steps = ' + q(steps),
         '  Vars = ' + q(['p1', 's'] + list(steps)),
         '  TS = {1, 2}', '  Intervals = {2}', '  MaxCalls = 1', '  Horizon = 2',
-        '  EmitStep = 1', '  Dev = {}', '  SharedW = {}', '  InitLive = {"p1"}',
+        '  EmitStep = 1', '  Dev = {}', '  SharedW = {}', '  Directors = {}', '  Spare = {}',
+        '  InitLive = {"p1"}',
         '  MaxSeq = %d' % max_seq, 'CHECK_DEADLOCK FALSE',
         'INVARIANTS', '  TypeOK', '  C05_DepsAppliedBeforeInvoke',
         '  C05_SeqStepsAlone', '  C05_OncePerPhase', '  C05_SeqFirstInOrder',
